@@ -3,6 +3,8 @@
 import json
 props=[json.loads(l) for l in open('/verif/properties.jsonl')]
 CLAIMED = {
+ 'C01': ("one inductive step per node kind (list/map/object literals, member, subscript, polymorphic and dynamic calls, ==, string, union) over children of every catalogue type and of equal types with permuted fields: every back end's result is well typed at the inferred type, components included, and no variant access is mis-typed (the engine checks every unsafe variant cast); field selection through every container and call form returns the field of that name for all four field-order combinations of static types and run-time values",
+         "catalogue TC1 (14 types; 26 in the thorough tier), container sizes <= 1, numbers from a concrete pool in the structural step; the lifting from one step to all programs assumes the compositionality of Check/compile"),
  'C08': ("two- and three-operator inputs over user operators whose binding powers are symbolic float32 values (solver chooses orderings, fractional gaps, powers below 1) and whose fixity is any of left/right/non-associative/prefix/postfix parse to the tree the declarations dictate; a non-associative operator never chains in four contexts; 28 documented built-in forms parse as documented, 20 malformed inputs are rejected with a syntax error; every node's span re-parses to that node",
          "tables of 1-2 user operators plus optionally the built-ins; expression depth <= 3; mixed associativity at equal power is not dictated (assumed away); no random token sequences yet"),
  'C13': ("text of string(...) is the same for every Go map iteration order (order is a symbolic schedule); evaluation writes nothing to stdout except through print; every history of <= 3 compile/invoke steps that reuses one *types.Env and one *val.Env gives the fresh-engine result, on all four back ends, through the public facade",
